@@ -646,6 +646,13 @@ fn make_imaginary_rich(rng: &mut Rng, fun: &mut Fun) {
     for c in fun.cheb.iter_mut().skip(if zero_real { 0 } else { 2 }) {
         *c = C::new(0.0, c.re + c.im);
     }
+    // a third of those that keep a real part: the real constant dominates (100 ... 10 000 times the rest), so
+    // that the modulus of a rule value hardly moves while its imaginary part is still far from converged -
+    // convergence is a matter of the difference of successive values, not of the difference of their moduli
+    if !zero_real && !fun.poly.is_empty() && rng.chance(0.33) {
+        let big = rng.sign() * rng.log10(2.0, 4.0);
+        fun.poly[0] = C::new(big, fun.poly[0].im);
+    }
 }
 
 fn gen_fun_interval(rng: &mut Rng, complex: bool, a: f64, b: f64, mix: Mix, maxdeg: usize) -> Fun {
